@@ -942,6 +942,23 @@ func checkAside(e *simEnv, p *AsidePlan, st *asideState, sn *asideSnap, probeFro
 		}
 		return false
 	}
+	// callerDelInFlight: was a Del call of some task on key running, at that step, on the client that owns connection conn?
+	// (a removal that no caller asked for was decided by the library itself, whatever command it used)
+	callerDelInFlight := func(conn, key, step int) bool {
+		cl, known := st.connClient[conn]
+		if !known {
+			return true // cannot attribute: treat as a caller's
+		}
+		for _, t := range s.Tasks {
+			for _, rec := range t.Recs {
+				c := st.taskCalls[t.ID][rec.Index]
+				if c.Op == "del" && c.Cl == cl && c.Key == key && rec.StartStep <= step && (rec.EndStep < 0 || step <= rec.EndStep) {
+					return true
+				}
+			}
+		}
+		return false
+	}
 	for _, l2 := range loads {
 		for _, l1 := range loads {
 			ep := epochOfLoad[l1]
@@ -965,7 +982,8 @@ func checkAside(e *simEnv, p *AsidePlan, st *asideState, sn *asideSnap, probeFro
 				out.notJudged("concurrent-loads-first-lock-still-in-place") // judged by the first half
 			case end.Conn < 0 || end.Present:
 				out.notJudged("concurrent-loads-lock-removed-by-expiry-or-foreign-writer")
-			case !strings.HasPrefix(cmdOf(*end), "EVAL"):
+			case !strings.HasPrefix(cmdOf(*end), "EVAL") && callerDelInFlight(end.Conn, l1.Key, end.Step):
+				// a task's own Del call on that key was running on that client: the caller asked for the removal
 				out.notJudged("concurrent-loads-key-deleted-by-a-caller")
 			default:
 				taker, known := st.connClient[end.Conn]
